@@ -1264,6 +1264,13 @@ class MetadataSpec(Spec):
         out.append(("boundary", K([MS(b"8BIM", k, bool(i % 2), blk()) for i, k in enumerate(known)])))
         out.append(("boundary", K([MS(b"8ELE", b"mdyn", True, 0), MS(b"8BIM", b"sgrp", False, 2 ** 32 - 1), MS(b"8BIM", b"abcd", False, b""),
                                    MS(b"8BIM", b"wxyz", True, b"\x01\x02\x03")])))
+        # every kind of item at every position of the list (first, in the middle, last): what follows an item depends on how the
+        # item before it ended
+        base = [lambda: MS(b"8BIM", b"wxyz", True, b"\x01\x02\x03"), lambda: MS(b"8ELE", b"mdyn", True, 7),
+                lambda: MS(b"8BIM", known[0], False, blk(1)), lambda: MS(b"8BIM", b"abcd", False, b"\x09"),
+                lambda: MS(b"8BIM", b"pqrs", False, b"\x01\x02\x03\x04\x05\x06")]
+        for i in range(len(base)):
+            out.append(("boundary", K([f() for f in base[i:] + base[:i]])))
         for _ in range(3 if quick else 80):
             items = []
             for _ in range(rng.choice([1, 2, 4])):
